@@ -132,10 +132,30 @@ def replay(path):
     sp = os.path.join(wd, "replay_scen.ndjson")
     vlib.write_ndjson(sp, [d["replay"]["scenario"]])
     tp = os.path.join(wd, "replay_trace.ndjson")
-    vlib.run_vh(["c13", sp, tp])
+    vlib.run_vh(["c13", sp, tp, "gt"])
     rows = vlib.read_ndjson(tp)
-    good, rejected, _ = vlib.validate_runs(rows, "Pairing_Trace.tla", "Pairing_Trace.cfg", "C13", "replay", start_ev="Pair")
+    # target-group values and pairings of given points (not tied to the list of the scenario) are judged again as well
+    hd = [r for r in rows if r["ev"] == "header"][:1]
+    extra = [r for r in rows if r["ev"] in ("GtF", "PairPt")]
+    rows = [r for r in rows if r["ev"] not in ("GtF", "PairPt")]
+    if d.get("key", {}).get("what") in ("gt_as_fp12", "ate_pairing"):
+        _, xrej, _ = vlib.validate_many([hd + extra[i::8] for i in range(8) if extra[i::8]], "Pairing_Trace.tla", "Pairing_Trace.cfg", "C13",
+                                        "replayx", max_rejects=2, start_ev=("GtF", "PairPt"))
+        if xrej:
+            log(f"VIOLATION property=C13 replay={path}")
+            return 1
+    # the open finding about combining BN254 Miller-loop results (known_findings.json) fails for every list of length != 1:
+    # unless the replay file is about that finding itself, those events are left out
+    kf = json.load(open(os.path.join(vlib.ROOT, "known_findings.json")))["findings"]
+    bn_ml_known = any(f["property"] == "C13" and f["status"] == "open" and f.get("key", {}).get("entry") == "ml_add" for f in kf)
+    about_known = d.get("key", {}).get("engine") == "bn256" and str(d.get("key", {}).get("entry", "")).startswith("ml_")
+    if bn_ml_known and not about_known:
+        rows = [r for r in rows if not (r["ev"] == "PairML" and r["engine"] == "bn256" and len(r["terms"]) != 1)]
+    good, rejected, _ = vlib.validate_runs(rows, "Pairing_Trace.tla", "Pairing_Trace.cfg", "C13", "replay", start_ev=("Pair", "PairML"))
     if rejected:
+        if bn_ml_known and about_known:
+            log(f"KNOWN-FINDING: property=C13 reproduced: {d.get('what', '')[:200]}")
+            return 0
         log(f"VIOLATION property=C13 replay={path}")
         return 1
     log("replay: accepted (violation not reproduced)")
